@@ -17,12 +17,12 @@ package lang
 //@     assume reads: val != nil && $slot == val
 //@   ensures reads_complete: result
 //@   ghost si int
-//@   loop 1 invariant bi >= iter(1)
-//@   loop 2 invariant bi == iter(1) ==> ii >= iter(2)
-//@   loop 3 invariant bi == iter(1) && ii == iter(2) ==> si >= iter(3)
-//@   loop 4 invariant bi == iter(1) && ii == iter(2) ==> si >= iter(4)
-//@   loop 5 invariant bi == iter(1) && ii == iter(2) ==> si >= iter(5)
-//@   loop 6 invariant bi == iter(1) && ii == iter(2) ==> si >= iter(6)
+//@   loop blk invariant bi >= iter(blk)
+//@   loop instr invariant bi == iter(blk) ==> ii >= iter(instr)
+//@   loop binding invariant bi == iter(blk) && ii == iter(instr) ==> si >= iter(binding)
+//@   loop edge invariant bi == iter(blk) && ii == iter(instr) ==> si >= iter(edge)
+//@   loop state invariant bi == iter(blk) && ii == iter(instr) ==> si >= iter(state)
+//@   loop result invariant bi == iter(blk) && ii == iter(instr) ==> si >= iter(result)
 
 //@ func FnWritesTo
 //@   property C05
@@ -33,8 +33,8 @@ package lang
 //@   slots fn.Blocks[bi].Instrs[ii] world ssa.Instruction only Store.Addr, MapUpdate.Map, Send.Chan
 //@     assume writes: val != nil && $slot == val
 //@   ensures writes_complete: result
-//@   loop 1 invariant bi >= iter(1)
-//@   loop 2 invariant bi == iter(1) ==> ii >= iter(2)
+//@   loop blk invariant bi >= iter(blk)
+//@   loop instr invariant bi == iter(blk) ==> ii >= iter(instr)
 
 //@ func callCommonReadsFrom
 //@   property C05
@@ -42,4 +42,17 @@ package lang
 //@   ensures value: call.Value == val ==> result
 //@   ensures args: forall i int :: 0 <= i && i < len(call.Args) && call.Args[i] == val ==> result
 //@   modifies nothing
-//@   loop 1 invariant forall j int :: 0 <= j && j < iter(1) ==> call.Args[j] != val
+//@   loop arg invariant forall j int :: 0 <= j && j < iter(arg) ==> call.Args[j] != val
+
+// C07: the instruction switch is total over the closed set of SSA instruction
+// kinds (MultiConvert only occurs in bodies of uninstantiated generic functions,
+// which the loaders never hand to the analyses: ssa.InstantiateGenerics), and it
+// dispatches every kind to the visitor method of that kind.
+
+//@ func InstrSwitch
+//@   property C07 C08
+//@   requires instr != nil && !istype(instr, *ssa.MultiConvert)
+//@   nopanic
+//@   kinds instr world ssa.Instruction except MultiConvert, DebugRef, SliceToArrayPointer
+//@     ensures dispatch: called(visitor.Do$N, $x)
+//@   ensures dispatch.SliceToArrayPointer: istype(instr, *ssa.SliceToArrayPointer) ==> called(visitor.DoSliceArrayToPointer, instr.(*ssa.SliceToArrayPointer))
